@@ -42,6 +42,11 @@ structure GroupT (α : Type) where
   iaBase : List Nat       -- `interaction_atoms_for_bases`
   cov : List Nat          -- `covalently_coupled_groups`
 
+/-- a table: its length and the entry at every index (the driver wraps an array; the theorems quantify over all tables) -/
+structure Tab (β : Type) where
+  n : Nat
+  get : Nat → β
+
 /-- `angle_distance_factors` result -/
 structure Ang (α : Type) where
   d12 : α
@@ -121,8 +126,8 @@ variable {α : Type} [Add α] [Sub α] [Mul α] [Div α] [Neg α] [NatCast α] [
 def zero : α := ((0:Nat):α)
 
 def GroupT.dflt : GroupT α := ⟨"", "", "", true, 0, zero, zero, false, false, 0, [], [], []⟩
-def aget (atoms : Array AtomT) (i : Nat) : AtomT := atoms.getD i default
-def gget (groups : Array (GroupT α)) (i : Nat) : GroupT α := groups.getD i GroupT.dflt
+def aget (atoms : Tab AtomT) (i : Nat) : AtomT := atoms.get i
+def gget (groups : Tab (GroupT α)) (i : Nat) : GroupT α := groups.get i
 
 /-- Python truthiness of a float that is not None -/
 def truthy (v : α) : Bool := decide (v < zero) || decide (zero < v)
@@ -136,31 +141,31 @@ def hasBB (t : String) : Bool :=
   go t.toList
 
 /-! ### desolvation -/
-def heavy (atoms : Array AtomT) : List Nat := (List.range atoms.size).filter fun i => (aget atoms i).elem != "H"
+def heavy (atoms : Tab AtomT) : List Nat := (List.range atoms.n).filter fun i => (aget atoms i).elem != "H"
 
 /-- the volume of an atom in the desolvation sum -/
 def dvol (p : SP α) (a : AtomT) : α :=
   if a.elem == "C" && a.name != "CA" && a.name != "C" then p.vdwC4 else (p.vdwOf a.elem).getD ((1:Nat):α)
 
 /-- (volume, squared distance) of the heavy atoms outside the group's residue -/
-def desolvInput (p : SP α) (env : Env α) (atoms : Array AtomT) (g : Nat) : List (α × α) :=
+def desolvInput (p : SP α) (env : Env α) (atoms : Tab AtomT) (g : Nat) : List (α × α) :=
   ((heavy atoms).filter fun a => !env.sameRes g a).map fun a => (dvol p (aget atoms a), env.sqGA g a)
 
-def desolv (p : SP α) (env : Env α) (atoms : Array AtomT) (g : Nat) : α × Nat :=
+def desolv (p : SP α) (env : Env α) (atoms : Tab AtomT) (g : Nat) : α × Nat :=
   desolvLoop p.ep p.desolvCut2 p.buriedCut2 (desolvInput p env atoms g)
 
 /-- groups that get a desolvation term: `get_titratable_groups() + get_ions()` -/
 def desolvated (p : SP α) (g : GroupT α) : Bool := g.titratable || p.ionRes g.resType
 
 /-- (volume, count) of the desolvation loop for group `g`; zero for groups the code does not desolvate -/
-def desolvOf (p : SP α) (env : Env α) (atoms : Array AtomT) (groups : Array (GroupT α)) (g : Nat) : α × Nat :=
+def desolvOf (p : SP α) (env : Env α) (atoms : Tab AtomT) (groups : Tab (GroupT α)) (g : Nat) : α × Nat :=
   if desolvated p (gget groups g) then desolv p env atoms g else (zero, 0)
 
 /-- `group.buried` from `group.num_volume` -/
-def buriedOf (p : SP α) (groups : Array (GroupT α)) (nv : Nat → Nat) (g : Nat) : α :=
+def buriedOf (p : SP α) (groups : Tab (GroupT α)) (nv : Nat → Nat) (g : Nat) : α :=
   if desolvated p (gget groups g) then calculateWeight p.ep ((nv g : Nat) : α) else zero
 /-- `group.energy_volume` -/
-def evolOf (p : SP α) (groups : Array (GroupT α)) (vol : Nat → α) (nv : Nat → Nat) (g : Nat) : α :=
+def evolOf (p : SP α) (groups : Tab (GroupT α)) (vol : Nat → α) (nv : Nat → Nat) (g : Nat) : α :=
   if desolvated p (gget groups g) then energyVolume p.ep (gget groups g).q (vol g) (buriedOf p groups nv g) else zero
 
 /-! ### closest atoms -/
@@ -179,7 +184,7 @@ def smallest (sq : Nat → Nat → α) (as bs : List Nat) : Option (Best α) :=
 /-- `group.get_interaction_atoms(other)` -/
 def interAtoms (p : SP α) (g other : GroupT α) : List Nat := if p.baseRes other.resType then g.iaBase else g.iaAcid
 
-def bond0 (atoms : Array AtomT) (a : Nat) : Nat := (aget atoms a).bonded.headD a
+def bond0 (atoms : Tab AtomT) (a : Nat) : Nat := (aget atoms a).bonded.headD a
 
 /-! ### backbone hydrogen bonds -/
 /-- `get_backbone_hydrogen_bond_parameters(backbone_atom, atom)` -/
@@ -187,7 +192,7 @@ def bbParams (p : SP α) (bbType tType : String) : Option (α × α × α) :=
   if bbType == "BBC" then p.bbCO tType else if bbType == "BBN" then p.bbNH tType else none
 
 /-- the angle factor of a backbone hydrogen bond: titratable group `tg`, backbone group `bg`, closest atoms -/
-def bbAngle (p : SP α) (env : Env α) (atoms : Array AtomT) (tg bg : GroupT α) (bAtom tAtom : Nat) : α :=
+def bbAngle (p : SP α) (env : Env α) (atoms : Tab AtomT) (tg bg : GroupT α) (bAtom tAtom : Nat) : α :=
   let f1 : α :=
     if bg.type == "BBC" && p.angular tg.type then
       (if (aget atoms tAtom).elem == "H" then (env.angA (bond0 atoms tAtom) tAtom bAtom).f else zero)
@@ -196,7 +201,7 @@ def bbAngle (p : SP α) (env : Env α) (atoms : Array AtomT) (tg bg : GroupT α)
     (if (aget atoms bAtom).elem == "H" then (env.angA tAtom bAtom (bond0 atoms bAtom)).f else zero)
   else f1
 
-def bbValue (p : SP α) (env : Env α) (atoms : Array AtomT) (tg bg : GroupT α) (r : Best α) : Option α :=
+def bbValue (p : SP α) (env : Env α) (atoms : Tab AtomT) (tg bg : GroupT α) (r : Best α) : Option α :=
   let dist := Trig.sqrt r.d
   match bbParams p (aget atoms r.a).gtype (aget atoms r.b).gtype with
   | none => none
@@ -207,7 +212,7 @@ def bbValue (p : SP α) (env : Env α) (atoms : Array AtomT) (tg bg : GroupT α)
     else none
 
 /-- the backbone determinant of titratable group `t` towards backbone group `b`, if any -/
-def bbDet (p : SP α) (env : Env α) (atoms : Array AtomT) (groups : Array (GroupT α)) (t b : Nat) : Option (Det α) :=
+def bbDet (p : SP α) (env : Env α) (atoms : Tab AtomT) (groups : Tab (GroupT α)) (t b : Nat) : Option (Det α) :=
   let tg := gget groups t
   let bg := gget groups b
   if tg.iaAcid.isEmpty then none
@@ -216,44 +221,44 @@ def bbDet (p : SP α) (env : Env α) (atoms : Array AtomT) (groups : Array (Grou
     | none => none
     | some r => (bbValue p env atoms tg bg r).map fun v => ⟨b, v⟩
 
-def bbGroups (groups : Array (GroupT α)) : List Nat := (List.range groups.size).filter fun i => hasBB (gget groups i).type
-def titratables (groups : Array (GroupT α)) : List Nat := (List.range groups.size).filter fun i => (gget groups i).titratable
-def ionGroups (p : SP α) (groups : Array (GroupT α)) : List Nat := (List.range groups.size).filter fun i => p.ionRes (gget groups i).resType
+def bbGroups (groups : Tab (GroupT α)) : List Nat := (List.range groups.n).filter fun i => hasBB (gget groups i).type
+def titratables (groups : Tab (GroupT α)) : List Nat := (List.range groups.n).filter fun i => (gget groups i).titratable
+def ionGroups (p : SP α) (groups : Tab (GroupT α)) : List Nat := (List.range groups.n).filter fun i => p.ionRes (gget groups i).resType
 
-def bbDets (p : SP α) (env : Env α) (atoms : Array AtomT) (groups : Array (GroupT α)) (t : Nat) : List (Det α) :=
+def bbDets (p : SP α) (env : Env α) (atoms : Tab AtomT) (groups : Tab (GroupT α)) (t : Nat) : List (Det α) :=
   if (gget groups t).titratable then (bbGroups groups).filterMap (bbDet p env atoms groups t) else []
 
 /-! ### ions -/
-def ionDet (p : SP α) (env : Env α) (groups : Array (GroupT α)) (nv : Nat → Nat) (t i : Nat) : Option (Det α) :=
+def ionDet (p : SP α) (env : Env α) (groups : Tab (GroupT α)) (nv : Nat → Nat) (t i : Nat) : Option (Det α) :=
   if env.sqGG t i < p.cc2sq then
     some ⟨i, ionValue (gget groups i).q (coulombEnergy p.ep (Trig.sqrt (env.sqGG t i))
       (pairWeight p.ep ((nv t : Nat) : α) ((nv i : Nat) : α)))⟩
   else none
 
-def ionDets (p : SP α) (env : Env α) (groups : Array (GroupT α)) (nv : Nat → Nat) (t : Nat) : List (Det α) :=
+def ionDets (p : SP α) (env : Env α) (groups : Tab (GroupT α)) (nv : Nat → Nat) (t : Nat) : List (Det α) :=
   if (gget groups t).titratable then (ionGroups p groups).filterMap (ionDet p env groups nv t) else []
 
 /-! ### backbone reorganisation -/
-def bbcGroups (groups : Array (GroupT α)) : List Nat := (List.range groups.size).filter fun i => (gget groups i).type == "BBC"
+def bbcGroups (groups : Tab (GroupT α)) : List Nat := (List.range groups.n).filter fun i => (gget groups i).type == "BBC"
 
-def reorgInput (p : SP α) (env : Env α) (groups : Array (GroupT α)) (t : Nat) : List (α × α) :=
+def reorgInput (p : SP α) (env : Env α) (groups : Tab (GroupT α)) (t : Nat) : List (α × α) :=
   (bbcGroups groups).map fun b =>
     let r := env.angC t ((interAtoms p (gget groups b) (gget groups t)).headD 0) (gget groups b).atom
     (r.d12, r.f)
 
 def reorganised (p : SP α) (g : GroupT α) : Bool := p.reorgRes g.resType && !g.bridged
 
-def elocOf (p : SP α) (env : Env α) (groups : Array (GroupT α)) (nv : Nat → Nat) (t : Nat) : α :=
+def elocOf (p : SP α) (env : Env α) (groups : Tab (GroupT α)) (nv : Nat → Nat) (t : Nat) : α :=
   if reorganised p (gget groups t) then energyLocal p.ep (reorgInput p env groups t) (buriedOf p groups nv t) else zero
 
 /-! ### side-chain hydrogen bonds (`hydrogen_bond_interaction`) -/
 /-- `atom.is_atom_within_bond_distance(other, max_bonds, cur_bond)`; `fuel` bounds the recursion depth like `max_bonds` does -/
-def withinBonds (atoms : Array AtomT) (other : Nat) : Nat → Nat → Bool
+def withinBonds (atoms : Tab AtomT) (other : Nat) : Nat → Nat → Bool
   | 0, _ => false
   | fuel+1, a => (aget atoms a).bonded.any fun ba => ba == other || (decide (0 < fuel) && withinBonds atoms other fuel ba)
 
 /-- the angle factor and the distance that enters the energy -/
-def scAngle (p : SP α) (env : Env α) (atoms : Array AtomT) (g1 g2 : GroupT α) (r : Best α) : α × α :=
+def scAngle (p : SP α) (env : Env α) (atoms : Tab AtomT) (g1 g2 : GroupT α) (r : Best α) : α × α :=
   if p.angular g2.type then
     (if (aget atoms r.b).elem == "H" then
       let x := env.angA r.a r.b (bond0 atoms r.b); (x.d12, x.f)
@@ -265,7 +270,7 @@ def scAngle (p : SP α) (env : Env α) (atoms : Array AtomT) (g1 g2 : GroupT α)
   else (Trig.sqrt r.d, ((1:Nat):α))
 
 /-- one round of `check_coo_arg_exception`: the value of the closest pair and the two atom lists without it -/
-def cooArgRound (p : SP α) (env : Env α) (atoms : Array AtomT) (argAngular : Bool) (st : α × List Nat × List Nat) : α × List Nat × List Nat :=
+def cooArgRound (p : SP α) (env : Env α) (atoms : Tab AtomT) (argAngular : Bool) (st : α × List Nat × List Nat) : α × List Nat × List Nat :=
   match smallest env.sqAA st.2.1 st.2.2 with
   | none => st
   | some r =>
@@ -275,11 +280,11 @@ def cooArgRound (p : SP α) (env : Env α) (atoms : Array AtomT) (argAngular : B
     let f := if argAngular then x.f else ((1:Nat):α)
     (st.1 + hbondEnergy dist p.scInt cut.1 cut.2 f, st.2.1.erase r.a, st.2.2.erase r.b)
 
-def cooArg (p : SP α) (env : Env α) (atoms : Array AtomT) (coo arg : GroupT α) : α :=
+def cooArg (p : SP α) (env : Env α) (atoms : Tab AtomT) (coo arg : GroupT α) : α :=
   let s0 : α × List Nat × List Nat := (zero, interAtoms p coo arg, interAtoms p arg coo)
   (cooArgRound p env atoms (p.angular arg.type) (cooArgRound p env atoms (p.angular arg.type) s0)).1
 
-def cooCoo (p : SP α) (env : Env α) (atoms : Array AtomT) (g1 g2 : GroupT α) (n1 n2 : α) : α :=
+def cooCoo (p : SP α) (env : Env α) (atoms : Tab AtomT) (g1 g2 : GroupT α) (n1 n2 : α) : α :=
   match smallest env.sqAA (interAtoms p g1 g2) (interAtoms p g2 g1) with
   | none => zero
   | some r =>
@@ -287,7 +292,7 @@ def cooCoo (p : SP α) (env : Env α) (atoms : Array AtomT) (g1 g2 : GroupT α) 
     hbondEnergy (Trig.sqrt r.d) p.scInt cut.1 cut.2 ((1:Nat):α) * (((1:Nat):α) + pairWeight p.ep n1 n2)
 
 /-- `check_exceptions`: `some value` if the pair is handled by an exception rule -/
-def exceptionValue (p : SP α) (env : Env α) (atoms : Array AtomT) (g1 g2 : GroupT α) (n1 n2 : α) : Option α :=
+def exceptionValue (p : SP α) (env : Env α) (atoms : Tab AtomT) (g1 g2 : GroupT α) (n1 n2 : α) : Option α :=
   let t1 := g1.type
   let t2 := g2.type
   if t1 == "COO" && t2 == "ARG" then some (cooArg p env atoms g1 g2)
@@ -300,7 +305,7 @@ def exceptionValue (p : SP α) (env : Env α) (atoms : Array AtomT) (g1 g2 : Gro
   else none
 
 /-- `hydrogen_bond_interaction(group1, group2, version)`; `n1 n2` are the groups' `num_volume` -/
-def hbVal (p : SP α) (env : Env α) (atoms : Array AtomT) (g1 g2 : GroupT α) (n1 n2 : α) : Option α :=
+def hbVal (p : SP α) (env : Env α) (atoms : Tab AtomT) (g1 g2 : GroupT α) (n1 n2 : α) : Option α :=
   match smallest env.sqAA (interAtoms p g1 g2) (interAtoms p g2 g1) with
   | none => none
   | some r =>
@@ -320,15 +325,15 @@ def coulVal (p : SP α) (g1 g2 : GroupT α) (n1 n2 dist : α) : Option α :=
   else none
 
 /-! ### the pair loop of `set_determinants` -/
-def sidechainGroups (groups : Array (GroupT α)) : List Nat :=
-  (List.range groups.size).filter fun i => !hasBB (gget groups i).type && !(gget groups i).bridged
+def sidechainGroups (groups : Tab (GroupT α)) : List Nat :=
+  (List.range groups.n).filter fun i => !hasBB (gget groups i).type && !(gget groups i).bridged
 
 /-- the inner loop for group `a`: earlier groups until `a` itself or a covalently coupled group is met -/
-def innerPairs (groups : Array (GroupT α)) (a : Nat) : List Nat → List (Nat × Nat)
+def innerPairs (groups : Tab (GroupT α)) (a : Nat) : List Nat → List (Nat × Nat)
   | [] => []
   | b :: rest => if b == a || (gget groups a).cov.contains b then [] else (a, b) :: innerPairs groups a rest
 
-def visited (groups : Array (GroupT α)) : List (Nat × Nat) :=
+def visited (groups : Tab (GroupT α)) : List (Nat × Nat) :=
   (sidechainGroups groups).flatMap fun a => innerPairs groups a (sidechainGroups groups)
 
 def tagOut (a b : Nat) (k : Kind) (o : Out α) : List (Em α) :=
@@ -339,7 +344,7 @@ structure PairRes (α : Type) where
   ems : List (Em α)
   inter : Option (Iter.Inter α)
 
-def pairStep (p : SP α) (env : Env α) (atoms : Array AtomT) (groups : Array (GroupT α)) (nv : Nat → α) (ab : Nat × Nat) : PairRes α :=
+def pairStep (p : SP α) (env : Env α) (atoms : Tab AtomT) (groups : Tab (GroupT α)) (nv : Nat → α) (ab : Nat × Nat) : PairRes α :=
   let g1 := gget groups ab.1
   let g2 := gget groups ab.2
   let dist := Trig.sqrt (env.sqGG ab.1 ab.2)
@@ -364,7 +369,7 @@ def pairStep (p : SP α) (env : Env α) (atoms : Array AtomT) (groups : Array (G
     | _ => ⟨[], none⟩
   else ⟨[], none⟩
 
-def pairResults (p : SP α) (env : Env α) (atoms : Array AtomT) (groups : Array (GroupT α)) (nv : Nat → Nat) : List (PairRes α) :=
+def pairResults (p : SP α) (env : Env α) (atoms : Tab AtomT) (groups : Tab (GroupT α)) (nv : Nat → Nat) : List (PairRes α) :=
   (visited groups).map (pairStep p env atoms groups fun g => ((nv g : Nat) : α))
 
 def nonIterEms (rs : List (PairRes α)) : List (Em α) := rs.flatMap (·.ems)
@@ -392,17 +397,17 @@ def totalPka (p : SP α) (g : GroupT α) (evol eloc : α) (sc bb cb : List (Det 
 def geq (g h : GroupT α) : Bool := g.label == h.label && (g.protein || g.resNum == h.resNum)
 
 /-- `get_a_coupled_system_of_groups`: depth-first over the covalently coupled lists -/
-def collect (groups : Array (GroupT α)) : Nat → List Nat → Nat → List Nat
+def collect (groups : Tab (GroupT α)) : Nat → List Nat → Nat → List Nat
   | 0, sys, _ => sys
   | fuel+1, sys, g =>
     (gget groups g).cov.foldl (fun s c => if s.contains c then s else collect groups fuel s c) (if sys.contains g then sys else sys ++ [g])
 
 /-- `get_coupled_systems` -/
-def systems (groups : Array (GroupT α)) : Nat → List Nat → List (List Nat)
+def systems (groups : Tab (GroupT α)) : Nat → List Nat → List (List Nat)
   | 0, _ => []
   | _, [] => []
   | fuel+1, g :: rest =>
-    let sys := collect groups groups.size [] g
+    let sys := collect groups groups.n [] g
     sys :: systems groups fuel (rest.filter fun x => !sys.contains x)
 
 def argmaxPka (pka : Nat → α) : List Nat → Option Nat
@@ -413,20 +418,20 @@ def argminPka (pka : Nat → α) : List Nat → Option Nat
   | g :: gs => some (gs.foldl (fun b x => if pka x < pka b then x else b) g)
 
 /-- `coupling_effects` on one system: (group, its `coupled_titrating_group`) for every penalised group -/
-def penalise (groups : Array (GroupT α)) (pka : Nat → α) (sys : List Nat) : List (Nat × Nat) :=
+def penalise (groups : Tab (GroupT α)) (pka : Nat → α) (sys : List Nat) : List (Nat × Nat) :=
   match argmaxPka pka sys with
   | none => []
   | some f =>
     if (gget groups f).q < zero then [(f, (argminPka pka sys).getD f)]
     else (sys.filter fun g => !geq (gget groups g) (gget groups f)).map fun g => (g, f)
 
-def covCoupled (groups : Array (GroupT α)) : List Nat := (List.range groups.size).filter fun i => !(gget groups i).cov.isEmpty
+def covCoupled (groups : Tab (GroupT α)) : List Nat := (List.range groups.n).filter fun i => !(gget groups i).cov.isEmpty
 
-def penalties (groups : Array (GroupT α)) (pka : Nat → α) : List (Nat × Nat) :=
-  (systems groups groups.size (covCoupled groups)).flatMap (penalise groups pka)
+def penalties (groups : Tab (GroupT α)) (pka : Nat → α) : List (Nat × Nat) :=
+  (systems groups groups.n (covCoupled groups)).flatMap (penalise groups pka)
 
 /-- `Group.remove_determinants(labels)` for a titratable group -/
-def removeDets (groups : Array (GroupT α)) (labels : List String) (ds : List (Det α)) : List (Det α) :=
+def removeDets (groups : Tab (GroupT α)) (labels : List String) (ds : List (Det α)) : List (Det α) :=
   ds.filter fun d => !labels.contains (gget groups d.partner).label
 
 /-! ### the whole of `calculate_pka` -/
@@ -440,20 +445,20 @@ structure Stage (α : Type) where
   cb : List (Det α)
 
 /-- the record of group `g` after the non-iterative section -/
-def stage1 (p : SP α) (env : Env α) (atoms : Array AtomT) (groups : Array (GroupT α)) (vol : Nat → α) (nv : Nat → Nat)
+def stage1 (p : SP α) (env : Env α) (atoms : Tab AtomT) (groups : Tab (GroupT α)) (vol : Nat → α) (nv : Nat → Nat)
     (ems : List (Em α)) (g : Nat) : Stage α :=
   { nv := nv g, buried := buriedOf p groups nv g, evol := evolOf p groups vol nv g,
     eloc := elocOf p env groups nv g,
     sc := emsOf ems g .sidechain, bb := bbDets p env atoms groups g,
     cb := ionDets p env groups nv g ++ emsOf ems g .coulomb }
 
-def iterGroups (p : SP α) (groups : Array (GroupT α)) (st : Nat → Stage α) : Array (Iter.IGroup α) :=
-  (Array.range groups.size).map fun i =>
+def iterGroups (p : SP α) (groups : Tab (GroupT α)) (st : Nat → Stage α) : Array (Iter.IGroup α) :=
+  (Array.range groups.n).map fun i =>
     let g := gget groups i
     let s := st i
     ⟨g.q, nonIterPka g s.evol s.eloc s.sc s.bb s.cb, p.exclRes g.resType⟩
 
-def iterEms (p : SP α) (groups : Array (GroupT α)) (st : Nat → Stage α) (inters : List (Iter.Inter α)) : List (Em α) :=
+def iterEms (p : SP α) (groups : Tab (GroupT α)) (st : Nat → Stage α) (inters : List (Iter.Inter α)) : List (Em α) :=
   (Iter.solve p.minV (iterGroups p groups st) inters).map fun d => ⟨d.owner, d.partner, iterKind d.kind, d.value⟩
 
 /-- the record of group `g` after the iterative section -/
@@ -463,11 +468,11 @@ def stage2 (s : Stage α) (its : List (Em α)) (g : Nat) : Stage α :=
 def Stage.dflt : Stage α := ⟨0, zero, zero, zero, [], [], []⟩
 
 /-- the first `calculate_total_pka` of group `i` -/
-def pkaFirst (p : SP α) (groups : Array (GroupT α)) (st : Nat → Stage α) (i : Nat) : α :=
+def pkaFirst (p : SP α) (groups : Tab (GroupT α)) (st : Nat → Stage α) (i : Nat) : α :=
   totalPka p (gget groups i) (st i).evol (st i).eloc (st i).sc (st i).bb (st i).cb
 
 /-- coupling effects, removal of the determinants towards penalised groups, second `calculate_total_pka` -/
-def finish (p : SP α) (groups : Array (GroupT α)) (st : Nat → Stage α) (pens : List (Nat × Nat)) (g : Nat) : GOut α :=
+def finish (p : SP α) (groups : Tab (GroupT α)) (st : Nat → Stage α) (pens : List (Nat × Nat)) (g : Nat) : GOut α :=
   let gr := gget groups g
   let labels := pens.map fun x => (gget groups x.1).label
   let s := st g
@@ -485,19 +490,37 @@ def finish (p : SP α) (groups : Array (GroupT α)) (st : Nat → Stage α) (pen
 /-- a table as a function (tables are computed once; a look-up outside the table gives the default) -/
 def tab {β : Type} (a : Array β) (d : β) (i : Nat) : β := a.getD i d
 
-/-- `ConformationContainer.calculate_pka`: the record of every group, in the order of `conformation.groups` -/
-def score (p : SP α) (env : Env α) (atoms : Array AtomT) (groups : Array (GroupT α)) : List (GOut α) :=
-  let n := groups.size
-  let des := (Array.range n).map (desolvOf p env atoms groups)
-  let vol := fun g => (tab des (zero, 0) g).1
-  let nv := fun g => (tab des (zero, 0) g).2
-  let rs := pairResults p env atoms groups nv
-  let st1 := (Array.range n).map (stage1 p env atoms groups vol nv (nonIterEms rs))
+/-- (volume, count) of the desolvation loop of every group -/
+def desTab (p : SP α) (env : Env α) (atoms : Tab AtomT) (groups : Tab (GroupT α)) : Array (α × Nat) :=
+  (Array.range groups.n).map (desolvOf p env atoms groups)
+def volF (des : Array (α × Nat)) (g : Nat) : α := (tab des (zero, 0) g).1
+def nvF (des : Array (α × Nat)) (g : Nat) : Nat := (tab des (zero, 0) g).2
+
+/-- the records after the non-iterative section -/
+def stage1Tab (p : SP α) (env : Env α) (atoms : Tab AtomT) (groups : Tab (GroupT α)) (des : Array (α × Nat))
+    (rs : List (PairRes α)) : Array (Stage α) :=
+  (Array.range groups.n).map (stage1 p env atoms groups (volF des) (nvF des) (nonIterEms rs))
+
+/-- the records after the iterative section -/
+def stage2Tab (p : SP α) (groups : Tab (GroupT α)) (st1 : Array (Stage α)) (rs : List (PairRes α)) : Array (Stage α) :=
   let its := iterEms p groups (tab st1 Stage.dflt) (iterInters rs)
-  let st2 := (Array.range n).map fun g => stage2 (tab st1 Stage.dflt g) its g
-  let pk := (Array.range n).map (pkaFirst p groups (tab st2 Stage.dflt))
-  let pens := penalties groups (tab pk zero)
-  (List.range n).map (finish p groups (tab st2 Stage.dflt) pens)
+  (Array.range groups.n).map fun g => stage2 (tab st1 Stage.dflt g) its g
+
+/-- everything up to (not including) the first `calculate_total_pka` -/
+def stagesTab (p : SP α) (env : Env α) (atoms : Tab AtomT) (groups : Tab (GroupT α)) : Array (Stage α) :=
+  let des := desTab p env atoms groups
+  let rs := pairResults p env atoms groups (nvF des)
+  stage2Tab p groups (stage1Tab p env atoms groups des rs) rs
+
+/-- `coupling_effects`: (penalised group, its coupled titrating group), from the first totals -/
+def pensOf (p : SP α) (groups : Tab (GroupT α)) (st : Array (Stage α)) : List (Nat × Nat) :=
+  penalties groups (tab ((Array.range groups.n).map (pkaFirst p groups (tab st Stage.dflt))) zero)
+
+/-- `ConformationContainer.calculate_pka`: the record of every group, in the order of `conformation.groups` -/
+def score (p : SP α) (env : Env α) (atoms : Tab AtomT) (groups : Tab (GroupT α)) : List (GOut α) :=
+  let st := stagesTab p env atoms groups
+  let pens := pensOf p groups st
+  (List.range groups.n).map (finish p groups (tab st Stage.dflt) pens)
 
 /-! ### the environment built from coordinates, as the code computes it -/
 /-- `squared_distance(a, b)` -/
@@ -509,14 +532,13 @@ def angOf (r : α × α × α) : Ang α := ⟨r.1, r.2.1, r.2.2⟩
 /-- residue key of an atom: (res_num, chain_id) -/
 abbrev ResKey := Int × String
 
-def envOf (apos : Array (Angle.P3 α)) (gpos : Array (Angle.P3 α)) (ares : Array ResKey) (gres : Array ResKey) : Env α :=
-  let z : Angle.P3 α := ⟨zero, zero, zero⟩
-  { sqAA := fun i j => sqDist (apos.getD i z) (apos.getD j z),
-    sqGA := fun g a => sqDist (gpos.getD g z) (apos.getD a z),
-    sqGG := fun g h => sqDist (gpos.getD g z) (gpos.getD h z),
-    angA := fun a1 a2 a3 => angOf (Angle.factors (apos.getD a1 z) (apos.getD a2 z) (apos.getD a3 z)),
-    angC := fun g a2 a3 => angOf (Angle.factors (gpos.getD g z) (apos.getD a2 z) (apos.getD a3 z)),
-    sameRes := fun g a => (ares.getD a (0, "")).1 == (gres.getD g (0, "")).1 && (ares.getD a (0, "")).2 == (gres.getD g (0, "")).2 }
+def envOf (apos : Nat → Angle.P3 α) (gpos : Nat → Angle.P3 α) (ares : Nat → ResKey) (gres : Nat → ResKey) : Env α :=
+  { sqAA := fun i j => sqDist (apos i) (apos j),
+    sqGA := fun g a => sqDist (gpos g) (apos a),
+    sqGG := fun g h => sqDist (gpos g) (gpos h),
+    angA := fun a1 a2 a3 => angOf (Angle.factors (apos a1) (apos a2) (apos a3)),
+    angC := fun g a2 a3 => angOf (Angle.factors (gpos g) (apos a2) (apos a3)),
+    sameRes := fun g a => (ares a).1 == (gres g).1 && (ares a).2 == (gres g).2 }
 end
 
 end Propka.Scoring
